@@ -34,8 +34,10 @@ Definition own (v : ival) : aval :=
 Definition dbl_abs (b : Z) : Z := b mod 2 ^ 63.
 Definition dbl_nan (b : Z) : bool := 9218868437227405312 <? dbl_abs b.      (* 0x7ff0000000000000 *)
 Definition dbl_zero (b : Z) : bool := dbl_abs b =? 0.
-Definition dbl_eqb (a b : Z) : bool :=
+Definition dbl_ieee_eqb (a b : Z) : bool :=
   negb (dbl_nan a) && negb (dbl_nan b) && ((a =? b) || (dbl_zero a && dbl_zero b)).
+(* FilteredOrderedAttributeMap::SameDouble: lhs == rhs || (lhs != lhs && rhs != rhs) - a NaN is the same value as a NaN *)
+Definition dbl_eqb (a b : Z) : bool := dbl_ieee_eqb a b || (dbl_nan a && dbl_nan b).
 
 Fixpoint list_eqb {A} (e : A -> A -> bool) (a b : list A) : bool :=
   match a, b with
@@ -44,7 +46,7 @@ Fixpoint list_eqb {A} (e : A -> A -> bool) (a b : list A) : bool :=
   | _, _ => false
   end.
 
-(* operator== of the variant: same alternative and equal content *)
+(* FilteredOrderedAttributeMap::SameValue: same alternative and equal content, doubles and double vectors through SameDouble *)
 Definition scal_eqb (t : sty) (x y : scal) : bool :=
   match x, y with
   | SZ a, SZ b => match t with TDbl => dbl_eqb a b | _ => a =? b end
@@ -55,6 +57,20 @@ Definition aval_eqb (a b : aval) : bool :=
   match a, b with
   | VOne t x, VOne u y => sty_eqb t u && scal_eqb t x y
   | VArr t l, VArr u m => sty_eqb t u && list_eqb (scal_eqb t) l m
+  | _, _ => false
+  end.
+
+(* operator== of the variant itself (what std::map's operator== uses): doubles by IEEE comparison *)
+Definition scal_ieee_eqb (t : sty) (x y : scal) : bool :=
+  match x, y with
+  | SZ a, SZ b => match t with TDbl => dbl_ieee_eqb a b | _ => a =? b end
+  | SS a, SS b => bytes_eqb a b
+  | _, _ => false
+  end.
+Definition aval_ieee_eqb (a b : aval) : bool :=
+  match a, b with
+  | VOne t x, VOne u y => sty_eqb t u && scal_ieee_eqb t x y
+  | VArr t l, VArr u m => sty_eqb t u && list_eqb (scal_ieee_eqb t) l m
   | _, _ => false
   end.
 
@@ -103,8 +119,11 @@ Definition mk_attrs (f : afilter) (kvs : list (bytes * ival)) : attrs :=
   fold_left (fun m kv => if allowed f (fst kv) then set_attr (fst kv) (own (snd kv)) m else m) kvs [].
 
 Definition pair_eqb (x y : bytes * aval) : bool := bytes_eqb (fst x) (fst y) && aval_eqb (snd x) (snd y).
-(* operator== of the std::map base *)
+(* FilteredOrderedAttributeMap::operator== without the cached-hash test: same size, same keys, SameValue values *)
 Definition attrs_eqb (a b : attrs) : bool := list_eqb pair_eqb a b.
+(* operator== of the std::map base *)
+Definition attrs_ieee_eqb (a b : attrs) : bool :=
+  list_eqb (fun x y => bytes_eqb (fst x) (fst y) && aval_ieee_eqb (snd x) (snd y)) a b.
 Definition pair_same (x y : bytes * aval) : bool := bytes_eqb (fst x) (fst y) && aval_same (snd x) (snd y).
 Definition attrs_same (a b : attrs) : bool := list_eqb pair_same a b.
 
@@ -113,7 +132,7 @@ Definition overflow_attrs : attrs :=
 
 (* ------------------------------------------------------------------ GetHashForAttributeMap *)
 Section Hash.
-  (* std::hash<std::string> and std::hash<double> (on the bit pattern) of the standard library in use *)
+  (* std::hash<std::string>, and std::hash<double> (on the bit pattern) after GetHash<double> has replaced a NaN by the quiet NaN *)
   Variable h_str : bytes -> Z.
   Variable h_dbl : Z -> Z.
   Definition M64 : Z := 2 ^ 64.
@@ -168,21 +187,12 @@ Definition gosd (limit : nat) (k : attrs) (t : table) : table * attrs :=
   | Some _ => (t, k)
   | None => if is_overflow limit t then (ensure_overflow t, overflow_attrs) else (t ++ [(k, 0)], k)
   end.
-(* GetOrSetDefault(KeyValueIterable, processor, cb)->Aggregate(d)  and  GetOrSetDefault(MetricAttributes&&, cb)->Aggregate(d):
-   (emplace: a key that does not compare equal to itself - a NaN inside - is simply inserted again) *)
+(* GetOrSetDefault(k, cb)->Aggregate(d), all three overloads (KeyValueIterable + processor, const MetricAttributes&,
+   MetricAttributes&&): the entry found, else the overflow entry when the table is full, else a new entry (emplace) *)
 Definition record (limit : nat) (k : attrs) (d : Z) (t : table) : table :=
   match tfind k t with
   | Some v => tset k (v + d) t
   | None => if is_overflow limit t then tadd overflow_attrs d (ensure_overflow t) else t ++ [(k, d)]
-  end.
-(* GetOrSetDefault(const MetricAttributes&, cb): hash_map_[k] = cb(); return hash_map_[k].get();  the second operator[] finds the
-   entry just made unless k does not equal itself, in which case it makes a second, empty one and the call returns nullptr *)
-Definition self_eq (k : attrs) : bool := attrs_eqb k k.
-Definition record_ref (limit : nat) (k : attrs) (d : Z) (t : table) : option table :=
-  match tfind k t with
-  | Some v => Some (tset k (v + d) t)
-  | None => if is_overflow limit t then Some (tadd overflow_attrs d (ensure_overflow t))
-            else if self_eq k then Some (t ++ [(k, d)]) else None
   end.
 (* Set(k, aggr): overwrite if present, else the overflow entry when full, else insert *)
 Definition tput (limit : nat) (k : attrs) (v : Z) (t : table) : table :=
@@ -196,25 +206,17 @@ Definition tput (limit : nat) (k : attrs) (v : Z) (t : table) : table :=
             else t ++ [(k, v)]
   end.
 
-(* the temporal storage's merge step:  agg = merged->GetOrSetDefault(k, default);  merged->Set(k, agg->Merge(aggregation))
-   None = agg is a null pointer and is dereferenced *)
-Definition merge_in (limit : nat) (t : table) (e : entry) : option table :=
+(* the temporal storage's merge step:  agg = merged->GetOrSetDefault(k, default);  merged->Set(k, agg->Merge(aggregation)) *)
+Definition merge_in (limit : nat) (t : table) (e : entry) : table :=
   let (k, d) := e in
   match tfind k t with
-  | Some v => Some (tput limit k (v + d) t)
+  | Some v => tput limit k (v + d) t
   | None => if is_overflow limit t then
               let t' := ensure_overflow t in
-              match tfind overflow_attrs t' with
-              | Some v => Some (tput limit k (v + d) t')
-              | None => None            (* unreachable: ensure_overflow put it there *)
-              end
-            else if self_eq k then Some (tput limit k d (t ++ [(k, 0)])) else None
+              tput limit k (match tfind overflow_attrs t' with Some v => v | None => 0 end + d) t'
+            else tput limit k d (t ++ [(k, 0)])
   end.
-Fixpoint merge_all (limit : nat) (t : table) (es : list entry) : option table :=
-  match es with
-  | [] => Some t
-  | e :: r => match merge_in limit t e with Some t' => merge_all limit t' r | None => None end
-  end.
+Definition merge_all (limit : nat) (t : table) (es : list entry) : table := fold_left (merge_in limit) es t.
 
 Definition total (t : table) : Z := fold_right (fun e s => snd e + s) 0 t.
 
@@ -255,12 +257,9 @@ Definition accepted (mono : bool) (v : Z) : Z := if mono && (v <? 0) then 0 else
 Definition st_record (c : cfg) (kvs : list (bytes * ival)) (v : Z) (s : storage) : storage :=
   mk_storage (record (c_limit c) (mk_attrs (c_filter c) kvs) (accepted (c_mono c) v) (s_interval s))
              (s_pushed s) (s_unrep s) (s_last s).
-(* RecordLong/RecordDouble(value, context): the static empty MetricAttributes through the const& overload (it equals itself) *)
+(* RecordLong/RecordDouble(value, context): the static empty MetricAttributes *)
 Definition st_record0 (c : cfg) (v : Z) (s : storage) : storage :=
-  match record_ref (c_limit c) [] (accepted (c_mono c) v) (s_interval s) with
-  | Some t => mk_storage t (s_pushed s) (s_unrep s) (s_last s)
-  | None => s
-  end.
+  mk_storage (record (c_limit c) [] (accepted (c_mono c) v) (s_interval s)) (s_pushed s) (s_unrep s) (s_last s).
 
 Fixpoint set_nth {A} (n : nat) (x : A) (l : list A) : list A :=
   match l, n with
@@ -272,7 +271,6 @@ Fixpoint set_nth {A} (n : nat) (x : A) (l : list A) : list A :=
 Inductive cres :=
 | CNoCb                 (* Collect returned without invoking the callback *)
 | CReport (t : table)   (* the points handed to the callback, in order *)
-| CCrash                (* null aggregation dereferenced *)
 | CReject.              (* the walk orders supplied are not orders of the model's tables: the tie is broken *)
 
 (* SyncMetricStorage::Collect(collector i) + TemporalMetricStorage::buildMetrics.
@@ -297,19 +295,13 @@ Definition st_collect (c : cfg) (i : nat) (iw rw : table) (s : storage) : storag
     if negb pushed1 then (mk_storage [] pushed1 unrep1 (s_last s), CNoCb) else
     let mine := nth i unrep1 [] in
     let unrep2 := set_nth i [] unrep1 in
-    match merge_all (c_limit c) [] (concat mine) with
-    | None => (mk_storage [] pushed1 unrep2 (s_last s), CCrash)
-    | Some m1 =>
-        let m2 := match nth i (s_last s) None with
-                  | Some lt => if cumulative then merge_all (c_limit c) m1 lt else Some m1
-                  | None => Some m1
-                  end in
-        match m2 with
-        | None => (mk_storage [] pushed1 unrep2 (s_last s), CCrash)
-        | Some m => if is_perm rw m then (mk_storage [] pushed1 unrep2 (set_nth i (Some rw) (s_last s)), CReport rw)
-                    else (s, CReject)
-        end
-    end.
+    let m1 := merge_all (c_limit c) [] (concat mine) in
+    let m := match nth i (s_last s) None with
+             | Some lt => if cumulative then merge_all (c_limit c) m1 lt else m1
+             | None => m1
+             end in
+    if is_perm rw m then (mk_storage [] pushed1 unrep2 (set_nth i (Some rw) (s_last s)), CReport rw)
+    else (s, CReject).
 
 Inductive op :=
 | ORec (kvs : list (bytes * ival)) (v : Z)
@@ -348,19 +340,14 @@ Inductive hop :=
 | HSize
 | HDump.                                                  (* GetAllEnteries *)
 Inductive hres :=
-| HRNone | HRNull | HRVal (v : option Z) | HRBool (b : bool) | HRSize (n : nat) | HRDump (t : table) | HRReject.
+| HRNone | HRNull (* a null aggregation was returned: never by the model *) | HRVal (v : option Z) | HRBool (b : bool) | HRSize (n : nat) | HRDump (t : table) | HRReject.
 
 Fixpoint run_hops (limit : nat) (f : afilter) (ops : list hop) (walks : list table) (t : table) : list hres :=
   match ops with
   | [] => []
   | HGet how kvs d :: r =>
       let k := mk_attrs f kvs in
-      if (how =? 1)%nat then
-        match record_ref limit k d t with
-        | Some t' => HRNone :: run_hops limit f r walks t'
-        | None => [HRNull]
-        end
-      else HRNone :: run_hops limit f r walks (record limit k d t)
+      HRNone :: run_hops limit f r walks (record limit k d t)
   | HSet _ kvs v :: r => HRNone :: run_hops limit f r walks (tput limit (mk_attrs f kvs) v t)
   | HQuery kvs :: r => HRVal (tfind (mk_attrs f kvs) t) :: run_hops limit f r walks t
   | HHas kvs :: r => HRBool (match tfind (mk_attrs f kvs) t with Some _ => true | None => false end) :: run_hops limit f r walks t
